@@ -14,7 +14,7 @@ package state
 //@ results err
 //@ requires entry != nil
 //@ ensures[stored] err == nil ==> T_kvs(entry.Key) == entry
-//@ ensures[frame-keys] err == nil ==> forall k string :: k != entry.Key ==> T_kvs(k) == old(T_kvs(k))
+//@ ensures[frame-keys] forall k string :: k != entry.Key ==> T_kvs(k) == old(T_kvs(k))
 //@ ensures[index-set] err == nil && !updateMax ==> idxVal("kvs") == entry.ModifyIndex
 //@ ensures[index-max] err == nil && updateMax ==> idxVal("kvs") == ite(old(idxVal("kvs")) >= entry.ModifyIndex, old(idxVal("kvs")), entry.ModifyIndex)
 //@ modifies T.kvs, T.index
@@ -31,7 +31,7 @@ package state
 //@ ensures[session-kept] err == nil && !updateSession ==> entry.Session == ite(old(T_kvs(entry.Key)) == nil, "", old(T_kvs(entry.Key).Session))
 //@ ensures[session-set] err == nil && updateSession ==> entry.Session == old(entry.Session)
 //@ ensures[content-kept] entry.Key == old(entry.Key) && eq(entry.Value, old(entry.Value)) && entry.Flags == old(entry.Flags) && entry.LockIndex == old(entry.LockIndex)
-//@ ensures[frame-keys] err == nil ==> forall k string :: k != entry.Key ==> T_kvs(k) == old(T_kvs(k))
+//@ ensures[frame-keys] forall k string :: k != entry.Key ==> T_kvs(k) == old(T_kvs(k))
 //@ modifies entry.CreateIndex, entry.ModifyIndex, entry.Session, T.kvs, T.index
 
 //@ func kvsSetCASTxn
@@ -42,3 +42,103 @@ package state
 //@ ensures[fail-unchanged] err == nil && !ok ==> (forall k string :: T_kvs(k) == old(T_kvs(k))) && idxVal("kvs") == old(idxVal("kvs")) && entry.ModifyIndex == old(entry.ModifyIndex)
 //@ ensures[err-not-ok] err != nil ==> !ok
 //@ modifies entry.CreateIndex, entry.ModifyIndex, entry.Session, T.kvs, T.index
+
+//@ func indexUpdateMaxTxn
+//@ props C02 C06
+//@ results err
+//@ ensures[max] err == nil ==> idxVal(key) == ite(old(idxVal(key)) >= idx, old(idxVal(key)), idx)
+//@ ensures[frame] forall t string :: strLower(t) != strLower(key) ==> T_index(t) == old(T_index(t))
+//@ modifies T.index
+
+//@ func Graveyard.InsertTxn
+//@ props C03 C06
+//@ results err
+//@ ensures[stone] err == nil ==> T_tombstones(key) != nil && T_tombstones(key).Key == key && T_tombstones(key).Index == idx
+//@ ensures[frame-keys] forall k string :: k != key ==> T_tombstones(k) == old(T_tombstones(k))
+//@ ensures[index] err == nil ==> idxVal("tombstones") == idx
+//@ ensures[frame-index] forall t string :: strLower(t) != "tombstones" ==> T_index(t) == old(T_index(t))
+//@ modifies T.tombstones, T.index
+
+//@ func kvsDeleteWithEntry
+//@ props C03 C06
+//@ results err
+//@ requires entry != nil
+//@ ensures[removed] err == nil ==> T_kvs(entry.Key) == nil && old(T_kvs(entry.Key)) != nil
+//@ ensures[frame-keys] forall k string :: k != entry.Key ==> T_kvs(k) == old(T_kvs(k))
+//@ ensures[index] err == nil ==> idxVal("kvs") == idx
+//@ ensures[frame-index] forall t string :: strLower(t) != "kvs" ==> T_index(t) == old(T_index(t))
+//@ modifies T.kvs, T.index
+
+//@ func Store.kvsDeleteTxn
+//@ props C03 C06
+//@ results err
+//@ ensures[removed] err == nil ==> T_kvs(key) == nil
+//@ ensures[frame-keys] forall k string :: k != key ==> T_kvs(k) == old(T_kvs(k))
+//@ ensures[tombstone-iff-removed] err == nil && old(T_kvs(key)) != nil ==> T_tombstones(key) != nil && T_tombstones(key).Index == idx && idxVal("kvs") == idx && idxVal("tombstones") == idx
+//@ ensures[empty-key-rejected] key == "" ==> err != nil
+//@ ensures[absent-noop] key != "" && old(T_kvs(key)) == nil ==> err == nil && (forall k string :: T_tombstones(k) == old(T_tombstones(k))) && (forall t string :: T_index(t) == old(T_index(t)))
+//@ ensures[frame-tombstones] forall k string :: k != key ==> T_tombstones(k) == old(T_tombstones(k))
+//@ ensures[frame-index] forall t string :: strLower(t) != "kvs" && strLower(t) != "tombstones" ==> T_index(t) == old(T_index(t))
+//@ modifies T.kvs, T.tombstones, T.index
+
+//@ func Store.kvsDeleteCASTxn
+//@ props C03 C10
+//@ results ok, err
+//@ ensures[cas-honest] err == nil ==> (ok <==> (old(T_kvs(key)) == nil || old(T_kvs(key).ModifyIndex) == cidx))
+//@ ensures[applied] err == nil && ok ==> T_kvs(key) == nil
+//@ ensures[fail-unchanged] err == nil && !ok ==> (forall k string :: T_kvs(k) == old(T_kvs(k))) && (forall k string :: T_tombstones(k) == old(T_tombstones(k))) && (forall t string :: T_index(t) == old(T_index(t)))
+//@ ensures[absent-unchanged] err == nil && old(T_kvs(key)) == nil ==> (forall k string :: T_kvs(k) == old(T_kvs(k))) && (forall k string :: T_tombstones(k) == old(T_tombstones(k))) && (forall t string :: T_index(t) == old(T_index(t)))
+//@ ensures[err-not-ok] err != nil ==> !ok
+//@ ensures[frame-keys] forall k string :: k != key ==> T_kvs(k) == old(T_kvs(k))
+//@ modifies T.kvs, T.tombstones, T.index
+
+//@ func Store.kvsDeleteTreeTxn
+//@ props C03 C06
+//@ results err
+//@ ensures[removed-exactly] err == nil ==> forall k string :: T_kvs(k) == ite(prefixOf(prefix, k), nil, old(T_kvs(k)))
+//@ ensures[tombstone-iff-removed] err == nil && prefix != "" && (exists k string :: prefixOf(prefix, k) && old(T_kvs(k)) != nil) ==> T_tombstones(prefix) != nil && T_tombstones(prefix).Index == idx
+//@ ensures[index-iff-removed] err == nil && (exists k string :: prefixOf(prefix, k) && old(T_kvs(k)) != nil) ==> idxVal("kvs") == idx
+//@ ensures[nothing-removed-noop] err == nil && !(exists k string :: prefixOf(prefix, k) && old(T_kvs(k)) != nil) ==> (forall k string :: T_tombstones(k) == old(T_tombstones(k))) && (forall t string :: T_index(t) == old(T_index(t)))
+//@ ensures[whole-tree-no-tombstone] err == nil && prefix == "" ==> forall k string :: T_tombstones(k) == old(T_tombstones(k))
+//@ ensures[frame-tombstones] forall k string :: k != prefix ==> T_tombstones(k) == old(T_tombstones(k))
+//@ modifies T.kvs, T.tombstones, T.index
+
+//@ func kvsLockTxn
+//@ props C03 C04
+//@ results ok, err
+//@ requires entry != nil
+//@ ensures[ok-needs-session] err == nil && ok ==> old(entry.Session) != "" && T_sessions(old(entry.Session)) != nil
+//@ ensures[ok-iff-free-or-mine] err == nil ==> (ok <==> (old(T_kvs(entry.Key)) == nil || old(T_kvs(entry.Key).Session) == "" || old(T_kvs(entry.Key).Session) == old(entry.Session)))
+//@ ensures[lock-counter] err == nil && ok ==> entry.LockIndex == ite(old(T_kvs(entry.Key)) == nil, 1, ite(old(T_kvs(entry.Key).Session) == old(entry.Session), old(T_kvs(entry.Key).LockIndex), old(T_kvs(entry.Key).LockIndex) + 1))
+//@ ensures[holder-set] err == nil && ok ==> T_kvs(entry.Key) != nil && T_kvs(entry.Key).Session == old(entry.Session) && T_kvs(entry.Key).LockIndex == entry.LockIndex
+//@ ensures[create-index] err == nil && ok ==> entry.CreateIndex == ite(old(T_kvs(entry.Key)) == nil, idx, old(T_kvs(entry.Key).CreateIndex))
+//@ ensures[fail-unchanged] err == nil && !ok ==> (forall k string :: T_kvs(k) == old(T_kvs(k))) && (forall t string :: T_index(t) == old(T_index(t)))
+//@ ensures[err-not-ok] err != nil ==> !ok
+//@ ensures[frame-keys] forall k string :: k != entry.Key ==> T_kvs(k) == old(T_kvs(k))
+//@ ensures[session-kept] err == nil ==> entry.Session == old(entry.Session)
+//@ modifies entry.CreateIndex, entry.ModifyIndex, entry.LockIndex, entry.Session, T.kvs, T.index
+
+//@ func kvsUnlockTxn
+//@ props C03 C04
+//@ results ok, err
+//@ requires entry != nil
+//@ ensures[ok-iff-holder] err == nil ==> (ok <==> (old(T_kvs(entry.Key)) != nil && old(T_kvs(entry.Key).Session) == old(entry.Session)))
+//@ ensures[released] err == nil && ok ==> T_kvs(entry.Key) != nil && T_kvs(entry.Key).Session == "" && T_kvs(entry.Key).LockIndex == old(T_kvs(entry.Key).LockIndex) && T_kvs(entry.Key).CreateIndex == old(T_kvs(entry.Key).CreateIndex)
+//@ ensures[fail-unchanged] err == nil && !ok ==> (forall k string :: T_kvs(k) == old(T_kvs(k))) && (forall t string :: T_index(t) == old(T_index(t)))
+//@ ensures[err-not-ok] err != nil ==> !ok
+//@ ensures[frame-keys] forall k string :: k != entry.Key ==> T_kvs(k) == old(T_kvs(k))
+//@ modifies entry.CreateIndex, entry.ModifyIndex, entry.LockIndex, entry.Session, T.kvs, T.index
+
+//@ func kvsCheckSessionTxn
+//@ props C03
+//@ results e, err
+//@ ensures[check] err == nil <==> (T_kvs(key) != nil && T_kvs(key).Session == session)
+//@ ensures[result] err == nil ==> e == T_kvs(key)
+//@ modifies nothing
+
+//@ func kvsCheckIndexTxn
+//@ props C03 C10
+//@ results e, err
+//@ ensures[check] err == nil <==> (T_kvs(key) != nil && T_kvs(key).ModifyIndex == cidx)
+//@ ensures[result] err == nil ==> e == T_kvs(key)
+//@ modifies nothing
